@@ -24,11 +24,17 @@
                  - everything after a mis-nesting inside a removable element: an end tag
                    that does not match the innermost open element, the element's own end tag
                    while children are still open, a stray end tag whose name was opened
-                   OUTSIDE the element (HTML5 would close the element with it), a <p>/<div>
-                   start tag inside the element while a <p> was opened outside (HTML5
-                   closes that <p> and the element with it)              [mis-nested]
-                 - everything after a self-closing form of a non-void element (<div/>,
-                   <noscript/>: an open tag in HTML, an empty element in XHTML/EPUB)
+                   OUTSIDE a <noscript> (HTML5 would close the noscript with it), a <p>/<div>
+                   start tag inside a <noscript> while a <p> was opened outside (HTML5 closes
+                   that <p> and the noscript with it).  Inside iframe (raw text in HTML5) and
+                   object / applet (scope barriers in HTML5) such tags close NOTHING outside:
+                   the text after the element, still inside the enclosing <div>/<body>, is MUST
+                                                                         [mis-nested]
+                 - in the HTML dialect everything after a self-closing form of a non-void element
+                   (<div/>, <noscript/>: an open tag in HTML); in the XML dialect (EPUB chapters,
+                   application/xhtml+xml) <script/>, <noscript/>, <iframe/>, <object/> are complete
+                   empty elements: nothing is removed and everything after them stays MUST
+                 - everything after a top-level </body> (content after the end of the body)
                  - script / style / iframe start tags inside an iframe (raw text in HTML5,
                    ordinary elements for html.parser)
                  - words in a CDATA section outside removable elements (text in XHTML,
@@ -50,8 +56,12 @@
         AnyEndTagDecrements      an end tag of ANOTHER name decrements while skipping
         VoidRemovableNeverCloses <embed> (void and in the removal list) opens a skip
         NoClose                  HTMLParser.close() is never called
-      All five on = the code as found at the pinned commit.  A sixth deviation is not as-built; it
-      names a regression class the bounded universe must contain a witness for:
+      All five on = the code as found at the pinned commit.  Three more deviations are not as-built;
+      they name regression classes the bounded universe must contain a witness for:
+        StartEndTagOnlyStarts    handle_startendtag calls handle_starttag only (<script/>T loses T)
+        EndTagFallsThrough       an end tag of another name inside the skipped element reaches the
+                                 tree builder and closes the enclosing <body>, whose tail text is
+                                 dropped (<body><iframe></body></iframe>T loses T)
         FirstEndTagCloses        the first end tag of the skipped element's name resets the counter
                                  to 0 (<object><object></object>T</object> leaks T)
 
@@ -67,7 +77,7 @@ CONSTANTS Deviations, Alphabet, MaxLen
 
 AsBuilt == {"CountVoidStartTag", "AnyStartTagIncrements", "AnyEndTagDecrements",
             "VoidRemovableNeverCloses", "NoClose"}
-DeviationNames == AsBuilt \cup {"FirstEndTagCloses"}
+DeviationNames == AsBuilt \cup {"FirstEndTagCloses", "StartEndTagOnlyStarts", "EndTagFallsThrough"}
 ASSUME Deviations \subseteq DeviationNames
 
 (* ------------------------------------------------------------------ token universe *)
@@ -75,7 +85,8 @@ Removable == {"script", "style", "noscript", "iframe", "object", "embed", "apple
 RawText   == {"script", "style"}                       \* HTMLParser.CDATA_CONTENT_ELEMENTS
 Void      == {"br", "hr", "img", "input", "meta", "link", "area", "base", "col", "embed",
               "param", "source", "track", "wbr"}       \* HTML void elements
-Plain     == {"div", "p", "span"}                      \* ordinary containers of the universe
+Plain     == {"div", "p", "span", "body"}              \* ordinary containers of the universe
+Barrier   == {"iframe", "object", "applet"}            \* raw text / scope barriers: tags inside reach nothing outside
 PClosers  == {"div", "p"}                              \* start tags that close an open <p> in HTML5
 Names     == Removable \cup Void \cup Plain
 Kinds     == {"T", "A", "S", "E", "X", "C", "D"}
@@ -106,6 +117,10 @@ AlphaQ2 == {Txt, Amp, St("object"), En("object"), St("iframe"), En("iframe"), Sc
             En("p"), St("style"), En("style")}
 AlphaQ3 == {Txt, St("noscript"), En("noscript"), St("img"), St("div"), En("div")}     \* deep, few tokens
 AlphaQ4 == {Txt, St("object"), En("object"), St("noscript"), En("noscript"), St("p")}   \* same-name nesting + inner text
+AlphaQ5 == {Txt, St("iframe"), En("iframe"), St("object"), En("object"), En("body"), St("div"), En("div")}
+AlphaQ5B == AlphaQ5 \cup {St("body")}                 \* theorem / sensitivity only: the doc frame's <body> as a token
+AlphaQ6 == {Txt, Sc("script"), Sc("style"), Sc("noscript"), Sc("iframe"), Sc("object"), Sc("applet"),
+            St("div"), En("noscript")}
 AlphaT  == {Txt, Amp, Com, Cds,
             St("noscript"), En("noscript"), St("object"), En("object"), St("iframe"), En("iframe"),
             St("script"), En("script"), St("div"), En("div"), St("p"), En("p"),
@@ -117,8 +132,8 @@ AlphaT2 == {Txt, Amp, St("applet"), En("applet"), St("style"), En("style"), St("
 (* ------------------------------------------------------------------ 1. declarative part *)
 AMB == 99            \* zone marker: after something ambiguous (zones: 0 = outside, k = inside region k)
 
-R0 == [E |-> "", inner |-> <<>>, raw |-> "", outer |-> {}, amb |-> FALSE, reg |-> 0,
-       closed |-> {}, z |-> <<>>]
+R0(xml) == [E |-> "", inner |-> <<>>, raw |-> "", outer |-> {}, amb |-> FALSE, reg |-> 0,
+            closed |-> {}, z |-> <<>>, xml |-> xml]    \* xml: XML dialect (EPUB chapter)
 
 ZoneOf(r) == IF r.amb THEN AMB ELSE IF r.E = "" THEN 0 ELSE r.reg
 InIframe(r) == r.E = "iframe" \/ "iframe" \in Range(r.inner)
@@ -133,10 +148,11 @@ RefTop(r, t) ==                                        \* outside every removabl
         ELSE IF t.n \in Plain THEN [r EXCEPT !.outer = @ \cup {t.n}]
         ELSE r                                         \* void element (embed included): opens nothing
     ELSE IF t.k = "X" THEN
-        IF t.n \in Removable \ Void THEN Ambiguous(r)  \* <noscript/>: HTML opens, XHTML empty
+        IF t.n \in Removable \ Void THEN (IF r.xml THEN r ELSE Ambiguous(r))   \* <noscript/>: HTML opens, XML empty
         ELSE IF t.n \in Plain THEN [r EXCEPT !.outer = @ \cup {t.n}]
         ELSE r
-    ELSE r                                             \* words, end tags: no effect on visibility
+    ELSE IF t.k = "E" /\ t.n = "body" THEN Ambiguous(r) \* after the end of the body
+    ELSE r                                             \* words, other end tags: no effect on visibility
 
 RefRaw(r, t) ==                                        \* inside script / style: only its own end tag counts
     IF t.k = "E" /\ t.n = r.raw
@@ -148,15 +164,15 @@ RefIn(r, t) ==                                         \* inside a removable, no
         IF t.n \in Void THEN r
         ELSE IF t.n \in RawText THEN (IF InIframe(r) THEN Ambiguous(r) ELSE [r EXCEPT !.raw = t.n])
         ELSE IF t.n = "iframe" /\ InIframe(r) THEN Ambiguous(r)
-        ELSE IF t.n \in PClosers /\ "p" \in r.outer THEN Ambiguous(r)
+        ELSE IF t.n \in PClosers /\ "p" \in r.outer /\ r.E \notin Barrier THEN Ambiguous(r)
         ELSE [r EXCEPT !.inner = Append(@, t.n)]
     ELSE IF t.k = "X" THEN
-        IF t.n \in Void THEN r ELSE Ambiguous(r)
+        IF t.n \in Void \/ (r.xml /\ t.n \in Removable) THEN r ELSE Ambiguous(r)
     ELSE IF t.k = "E" THEN
         IF r.inner # <<>> THEN
             IF t.n = Last(r.inner) THEN [r EXCEPT !.inner = Front(@)] ELSE Ambiguous(r)
         ELSE IF t.n = r.E THEN CloseRegion(r)
-        ELSE IF t.n \in r.outer THEN Ambiguous(r)
+        ELSE IF t.n \in r.outer /\ r.E \notin Barrier THEN Ambiguous(r)
         ELSE r                                         \* stray end tag: ignored
     ELSE r
 
@@ -178,8 +194,9 @@ ClassOf(t, z, closed) ==
     ELSE IF z \in closed THEN "MUSTNOT"
     ELSE "DC"
 
-Class(toks) == LET r == RefScan(toks, 1, R0) IN
-               [i \in 1..Len(toks) |-> ClassOf(toks[i], r.z[i], r.closed)]
+ClassX(toks, xml) == LET r == RefScan(toks, 1, R0(xml)) IN
+                     [i \in 1..Len(toks) |-> ClassOf(toks[i], r.z[i], r.closed)]
+Class(toks) == ClassX(toks, FALSE)                     \* HTML dialect
 
 Conforms(cls, seen) == \A i \in DOMAIN cls : (cls[i] = "MUST" => i \in seen)
                                               /\ (cls[i] = "MUSTNOT" => i \notin seen)
@@ -195,7 +212,7 @@ VARIABLES toks,      \* the token string fed so far
 vars == <<toks, cdata, h, out>>
 
 Dev(d) == d \in Deviations
-H0 == [skip |-> 0, tag |-> ""]
+H0 == [skip |-> 0, tag |-> "", body |-> FALSE, dead |-> FALSE]   \* body: <body> seen; dead: body closed early (deviation only)
 
 HStart(hh, n) ==                                       \* handle_starttag
     IF hh.skip > 0 THEN
@@ -204,12 +221,16 @@ HStart(hh, n) ==                                       \* handle_starttag
            \/ (n \notin Void /\ n # hh.tag /\ Dev("AnyStartTagIncrements"))
         THEN [hh EXCEPT !.skip = @ + 1] ELSE hh
     ELSE IF n \in Removable /\ (n \notin Void \/ Dev("VoidRemovableNeverCloses"))
-        THEN [skip |-> 1, tag |-> n]
+        THEN [hh EXCEPT !.skip = 1, !.tag = n]
+    ELSE IF n = "body" THEN [hh EXCEPT !.body = TRUE]
     ELSE hh
 
 HEnd(hh, n) ==                                         \* handle_endtag
     IF hh.skip > 0 /\ (n = hh.tag \/ Dev("AnyEndTagDecrements"))
-    THEN [hh EXCEPT !.skip = IF n = hh.tag /\ Dev("FirstEndTagCloses") THEN 0 ELSE @ - 1] ELSE hh
+    THEN [hh EXCEPT !.skip = IF n = hh.tag /\ Dev("FirstEndTagCloses") THEN 0 ELSE @ - 1]
+    ELSE IF hh.skip > 0 /\ n = "body" /\ hh.body /\ Dev("EndTagFallsThrough")
+    THEN [hh EXCEPT !.dead = TRUE]                      \* the tree builder pops <body>: later text is its tail, dropped
+    ELSE hh
 
 \* HTMLParser.goahead on one more token (position i): parser state p = [cdata, h, out] -> new state
 AlgStep(p, t, i) ==
@@ -218,12 +239,12 @@ AlgStep(p, t, i) ==
         THEN [p EXCEPT !.h = HEnd(p.h, t.n), !.cdata = ""]
         ELSE IF IsWord(t) /\ p.h.skip = 0 THEN [p EXCEPT !.out = @ \cup {i}] ELSE p
     ELSE IF IsText(t) THEN                             \* handle_data
-        IF p.h.skip = 0 THEN [p EXCEPT !.out = @ \cup {i}] ELSE p
+        IF p.h.skip = 0 /\ ~p.h.dead THEN [p EXCEPT !.out = @ \cup {i}] ELSE p
     ELSE IF t.k \in {"C", "D"} THEN p                  \* handle_comment / unknown_decl: dropped
     ELSE IF t.k = "S" THEN                             \* handle_starttag, then set_cdata_mode
         [p EXCEPT !.h = HStart(p.h, t.n), !.cdata = IF t.n \in RawText THEN t.n ELSE ""]
     ELSE IF t.k = "X" THEN                             \* handle_startendtag = start + end, no CDATA mode
-        [p EXCEPT !.h = HEnd(HStart(p.h, t.n), t.n)]
+        [p EXCEPT !.h = IF Dev("StartEndTagOnlyStarts") THEN HStart(p.h, t.n) ELSE HEnd(HStart(p.h, t.n), t.n)]
     ELSE [p EXCEPT !.h = HEnd(p.h, t.n)]               \* handle_endtag
 
 Feed(t) ==
@@ -252,7 +273,7 @@ RECURSIVE AlgScan(_, _, _)
 AlgScan(s, i, p) == IF i > Len(s) THEN p ELSE AlgScan(s, i + 1, AlgStep(p, s[i], i))
 AlgOut(s, eof) == FinalOutOf(s, AlgScan(s, 1, [cdata |-> "", h |-> H0, out |-> {}]), eof)
 
-Inv_AlgMeetsVisible == \A eof \in BOOLEAN : Conforms(Class(toks), FinalOut(eof))
+Inv_AlgMeetsVisible == \A eof \in BOOLEAN : \A xml \in BOOLEAN : Conforms(ClassX(toks, xml), FinalOut(eof))
 TypeOK == /\ WellFormed(toks) /\ h.skip \in 0..MaxLen /\ out \subseteq 1..Len(toks)
           /\ cdata \in RawText \cup {""}
 \* the reference counter is exactly "1 + nested same-name elements": it never goes wrong on DC either
